@@ -2069,7 +2069,7 @@ AREAS['pub'] = dict(out='GenSrcPub', files=[PUB, XPUB, TAPP, BIT, FD, LBD], requ
 
 IMGM = 'Image'
 SUBPOS = ('self . subscriber_position . get ( )', 'subscriber_position', 'i64')
-AREAS['image'] = dict(out='GenSrcImage', files=[IMG, 'src/subscription.rs', BIT, FD, LBD], requires=['GenSrcBits'], fns=[
+AREAS['image'] = dict(out='GenSrcImage', files=[IMG, BIT, FD, LBD], requires=['GenSrcBits'], fns=[
     F(IMG, IMGM, 'validate_position', 'src_img_validate_position', self=['term_length_mask'], opaque=[SUBPOS]),
     F(IMG, IMGM, 'create', 'src_img_term_length_mask', frag=('field', 'term_length_mask'), params=['capacity'],
       vars={'capacity': 'i32'}, ty='i32'),
@@ -2106,6 +2106,9 @@ AREAS['image'] = dict(out='GenSrcImage', files=[IMG, 'src/subscription.rs', BIT,
       params=['initial_position', 'offset', 'initial_offset'], vars={'initial_position': 'i64', 'offset': 'i32', 'initial_offset': 'i32'}),
     F(IMG, IMGM, 'bounded_poll', 'src_img_bounded_advances', frag=('cond', 'if', 3), params=['resulting_position', 'initial_position'],
       vars={'resulting_position': 'i64', 'initial_position': 'i64'}),
+])
+
+AREAS['sub'] = dict(out='GenSrcSub', files=['src/subscription.rs'], fns=[
     # Subscription::poll_inner (C20): the rotation of the starting image
     F('src/subscription.rs', 'Subscription', 'poll_inner', 'src_sub_starting_index', frag=('let', 'starting_index'),
       self=['round_robin_index']),
